@@ -483,9 +483,9 @@ func checkC12(c *Ctx) {
 	if c.Tier == "thorough" {
 		nPS, nWS, nCorr, nDirect = 100000, 30000, 200000, 4000
 	}
-	c.Rule = "evaluation = one simulated run: RegisterUE + EstablishPDU over the simulated association with a reference SMF that builds the accept with every optional IE of TS 24.501 table 8.3.2.1.1 independently present (table order), QoS rules 0..1000 octets and the transfer with bit rates over 0..4e12, compared with the three return values; traffic-mode whole-system runs observed through the data-plane stub; corruption faults (truncate/flip/set/splice) on the NAS-PDU or transfer inside an otherwise valid request for the termination clause; direct calls for accepts up to 4000 octets of QoS rules and arbitrary byte strings. distinct = (rig, accept option set, transfer option set, QoS length class); non-trivial = the run reached EstablishPDU"
+	c.Rule = "evaluation = one simulated run: RegisterUE + EstablishPDU over the simulated association with a reference SMF that builds the accept with every optional IE of TS 24.501 table 8.3.2.1.1 independently present (table order), QoS rules 0..4000 octets and the transfer with bit rates over 0..4e12, compared with the three return values; traffic-mode whole-system runs observed through the data-plane stub; corruption faults (truncate/flip/set/splice) on the NAS-PDU or transfer inside an otherwise valid request for the termination clause; direct calls for accepts up to 4000 octets of QoS rules and arbitrary byte strings. distinct = (rig, accept option set, transfer option set, QoS length class); non-trivial = the run reached EstablishPDU"
 	c.Assume = append(c.Assume, assumptionsWS...)
-	c.Assume = append(c.Assume, "downlink ciphering is NEA0 (the extractor documents that it only works with 5G-EA0)", "QoS rules above ~1000 octets cannot pass the emulator's 2048-octet read and are fed to the extractor directly (labelled direct)")
+	c.Assume = append(c.Assume, "downlink ciphering is NEA0 (the extractor documents that it only works with 5G-EA0)", "accepts are also fed to the extractor directly (labelled direct) together with arbitrary byte strings for the termination clause")
 	root := kernel.New(c.Seed).Sub("c12")
 	shapes := map[string]bool{}
 	var jobs []Job
